@@ -175,72 +175,87 @@ func (fi *FuncInfo) blockReachesAvoiding(from *ssa.BasicBlock, to ssa.Instructio
 	return false
 }
 
-// Edge identifies a CFG edge by predecessor block and successor slot.
+// instrReachesAvoiding: can control flow from just after instruction `from` reach
+// instruction `to` without executing any of the `avoid` instructions?
+func (fi *FuncInfo) instrReachesAvoiding(from, to ssa.Instruction, avoid []ssa.Instruction) bool {
+	fb := from.Block()
+	lo := fi.idx[from]
+	// rest of from's block
+	first := -1
+	for _, a := range avoid {
+		if a.Block() == fb && fi.idx[a] > lo && (first < 0 || fi.idx[a] < first) {
+			first = fi.idx[a]
+		}
+	}
+	if to.Block() == fb && fi.idx[to] > lo && (first < 0 || fi.idx[to] <= first) {
+		return true
+	}
+	if first >= 0 {
+		return false
+	}
+	for _, s := range fb.Succs {
+		if fi.blockReachesAvoiding(s, to, avoid) {
+			return true
+		}
+	}
+	return false
+}
+
+// Edge identifies a CFG edge by predecessor block and successor slot; Site is the call
+// site through which a spliced helper's block was entered (nil for the function's own).
 type Edge struct {
 	From *ssa.BasicBlock
 	Slot int
+	Site *spliceSite
 }
 
-// reachableBlocks returns the set of blocks reachable from the given start
-// blocks/edges when the edges in `cut` are deleted. Block `from` itself is
-// included for each start block.
+// reachFrom returns the set of blocks reachable from the given start blocks when the
+// edges in `cut` are deleted (start blocks included), walking through spliced helpers.
 func reachFrom(starts []*ssa.BasicBlock, cut map[Edge]bool) map[*ssa.BasicBlock]bool {
-	seen := map[*ssa.BasicBlock]bool{}
-	stack := append([]*ssa.BasicBlock(nil), starts...)
+	return reachFromNodes(nodesOf(starts), cut)
+}
+
+func reachFromNodes(starts []Node, cut map[Edge]bool) map[*ssa.BasicBlock]bool {
+	seen := map[Node]bool{}
+	out := map[*ssa.BasicBlock]bool{}
+	stack := append([]Node(nil), starts...)
 	for len(stack) > 0 {
-		b := stack[len(stack)-1]
+		n := stack[len(stack)-1]
 		stack = stack[:len(stack)-1]
-		if seen[b] {
+		if seen[n] {
 			continue
 		}
-		seen[b] = true
-		for i, s := range b.Succs {
-			if cut[Edge{b, i}] {
-				continue
-			}
-			if th, ok := threadMap[s]; ok {
-				if slot, ok := th[b]; ok {
-					// entering the phi-branch block s from b continues to exactly one successor
-					if !cut[Edge{s, slot}] {
-						stack = append(stack, s.Succs[slot])
-					}
-					continue
-				}
-			}
-			stack = append(stack, s)
-		}
+		seen[n] = true
+		out[n.B] = true
+		stack = append(stack, succNodes(n, cut)...)
 	}
-	return seen
+	return out
 }
 
 // pathTo returns one block path from start to target avoiding cut edges (for reports).
 func pathTo(start, target *ssa.BasicBlock, cut map[Edge]bool) []*ssa.BasicBlock {
-	prev := map[*ssa.BasicBlock]*ssa.BasicBlock{start: nil}
-	queue := []*ssa.BasicBlock{start}
+	type link struct {
+		prev Node
+		has  bool
+	}
+	s0 := Node{start, nil}
+	prev := map[Node]link{s0: {}}
+	queue := []Node{s0}
 	for len(queue) > 0 {
-		b := queue[0]
+		n := queue[0]
 		queue = queue[1:]
-		if b == target {
+		if n.B == target {
 			var out []*ssa.BasicBlock
-			for x := b; x != nil; x = prev[x] {
-				out = append([]*ssa.BasicBlock{x}, out...)
+			for cur, ok := n, true; ok; {
+				out = append([]*ssa.BasicBlock{cur.B}, out...)
+				l := prev[cur]
+				cur, ok = l.prev, l.has
 			}
 			return out
 		}
-		for i, s := range b.Succs {
-			if cut[Edge{b, i}] {
-				continue
-			}
-			if th, ok := threadMap[s]; ok {
-				if slot, ok := th[b]; ok {
-					if cut[Edge{s, slot}] {
-						continue
-					}
-					s = s.Succs[slot]
-				}
-			}
+		for _, s := range succNodes(n, cut) {
 			if _, ok := prev[s]; !ok {
-				prev[s] = b
+				prev[s] = link{n, true}
 				queue = append(queue, s)
 			}
 		}
